@@ -1025,6 +1025,11 @@ def pure_ext(it, dotted, args, kw, n):
             inner = [it.iterate(x) for x in outer]
             if all(l is not None for l in inner):
                 return ListV([x for l in inner for x in l])
+    if dotted in ('itertools.count',) and all(isinstance(a, K) and isinstance(a.v, int) for a in args) and not kw:
+        return CountStream(*[a.v for a in args])
+    if dotted in ('itertools.islice',) and isinstance(args[0], CountStream) and all(isinstance(a, K) for a in args[1:]):
+        import itertools as _it
+        return ListV([K(x) for x in _it.islice(_it.count(args[0].start, args[0].step), *[a.v for a in args[1:]])])
     if dotted in ('itertools.islice',):
         items = it.iterate(args[0])
         if items is not None and all(isinstance(a, K) for a in args[1:]):
@@ -1151,6 +1156,23 @@ class NamedTupleClass:
 
 
 # ------------------------------------------------------------------ external (library) calls
+class CountStream:
+    """itertools.count(): an endless stream. Only a rule that has chosen to walk a prefix (STREAM_CAP) iterates it; the interpreter then
+    records that it did (stream_capped) - running off the end of the prefix is the analysis giving up, never a behaviour of the code"""
+    def __init__(self, start=0, step=1):
+        self.start, self.step = start, step
+
+    def abs_iter(self, it):
+        raise Fail('an endless stream (itertools.count) is drained')
+
+    def abs_pull(self, it):
+        # pulled one item at a time by a lazy consumer (generator expression, filter, map, a for loop with an exit); a consumer that has
+        # not stopped after the prefix the rule allows (default 64 items) is the analysis giving up, never a behaviour of the code
+        for i in range(getattr(it, 'STREAM_CAP', None) or 64):
+            yield K(self.start + i * self.step)
+        raise Fail('an endless stream (itertools.count) was not left within the walked prefix')
+
+
 def ext_call(it, dotted, args, kw, n):
     hook = getattr(it, 'ext_hook', None)
     if hook is not None:
@@ -2239,6 +2261,18 @@ def builtin(it, name, args, kw, n):
     if name == 'slice' and args:
         a3 = ([K(None)] + list(args) if len(args) == 1 else list(args)) + [K(None)] * 2
         return SliceV(a3[0], a3[1], a3[2])
+    if name in ('map', 'filter') and len(args) >= 2 and any(isinstance(a, IterV) or hasattr(a, 'abs_pull') for a in args[1:]):
+        # over a lazy source the result is lazy as well (python's map / filter always are)
+        f = args[0]
+        srcs = [it.pull_iter(a, n) for a in args[1:]]
+
+        def lazy():
+            for t in zip(*srcs):
+                if name == 'map':
+                    yield it.call(f, list(t), {}, n)
+                elif it.truth(t[0] if isinstance(f, K) and f.v is None else it.call(f, [t[0]], {}, n), n):
+                    yield t[0]
+        return IterV(gen=lazy())
     if name in ('map', 'filter') and len(args) >= 2:
         lists = [it.iterate(a) for a in args[1:]]
         if any(l is None for l in lists):
